@@ -1992,7 +1992,7 @@ func lemmaForwardSession(raw *rawEnvelope) (e *Session, e3 *Session, accepted bo
 //@ func (*ClientChannel).EstablishSession
 //@   props C08 C09
 //@   requires cliOK(c) && c.transport.nRecv == 0
-//@   oncall [C09] @clientapplies (*ClientChannel).receiveSessionFromServer : synced(c.channel) && recvSes(c.channel).State == SessionStateNegotiating ==> (recvSes(c.channel).Encryption != "" ==> c.transport.enc == recvSes(c.channel).Encryption) && (recvSes(c.channel).Compression != "" ==> c.transport.comp == recvSes(c.channel).Compression)  ## the client has switched to every option the server confirmed before it exchanges anything else
+//@   oncall [C09] (*ClientChannel).receiveSessionFromServer : synced(c.channel) && recvSes(c.channel).State == SessionStateNegotiating ==> (recvSes(c.channel).Encryption != "" ==> c.transport.enc == recvSes(c.channel).Encryption) && (recvSes(c.channel).Compression != "" ==> c.transport.comp == recvSes(c.channel).Compression)  ## the client has switched to every option the server confirmed before it exchanges anything else
 //@   panics only-if ctx == nil || authenticator == nil || c.state != SessionStateNew || compSelector == nil || encryptSelector == nil
 //@   modifies c.localNode, c.remoteNode, c.sessionID, c.state, c.startRcv.fired, c.stopRcv.fired, c.transport.nRecv, c.transport.lastRecv, recvClock, c.transport.connected, c.transport.nSent, c.transport.lastSent, c.transport.nSentSes, c.transport.lastSes, c.transport.stage, c.transport.offerEnc, c.transport.offerComp, c.transport.offerSchemes, c.transport.confEnc, c.transport.confComp, c.transport.enc, c.transport.comp, c.cancel
 //@   loop 0 invariant ses != nil && c.sessionID == ses.ID && c.state == ses.State && c.transport.nRecv > 0 && cliOK(c)
